@@ -78,7 +78,7 @@ Record vprobe := {
 Record vcase := {
   vc_init : bool;               (* false: the probes pass a NAMESPACE of class C for T (routes above);
                                    true: they pass a SET of class C as init_render_args
-                                   (0 RenderArgs(T, init); 1 RenderArgs(T, init, ns_T); 2 init.convert(T)) *)
+                                   (0 RenderArgs(T, init); 1 RenderArgs(T, init, ns_T)) *)
   vc_par : list nat;
   vc_own : list bool;
   vc_reg : list (nat * nat);
